@@ -499,13 +499,64 @@ func (c *Ctx) isTypeEqualityTest(cond ssa.Value, key ssa.Value, recv ssa.Value) 
 		}
 		return false
 	}
-	return (isKeyType(bo.X) && isMapKeyType(bo.Y)) || (isKeyType(bo.Y) && isMapKeyType(bo.X))
+	if (isKeyType(bo.X) && isMapKeyType(bo.Y)) || (isKeyType(bo.Y) && isMapKeyType(bo.X)) {
+		return true
+	}
+	// the key types of the two maps compared: every key of a map has that map's key type
+	keyTypeOfMap := func(v ssa.Value) ssa.Value {
+		for _, s := range traceSources(v) {
+			call, ok := s.(*ssa.Call)
+			if !ok || !strings.HasSuffix(core.CalleeKey(&call.Call), ".Key") {
+				continue
+			}
+			var tv ssa.Value
+			if call.Call.IsInvoke() {
+				tv = call.Call.Value
+			} else if len(call.Call.Args) > 0 {
+				tv = call.Call.Args[0]
+			}
+			for _, ts := range traceSources(tv) {
+				if tc, ok := ts.(*ssa.Call); ok && core.CalleeKey(&tc.Call) == "reflect.Value.Type" {
+					return tc.Call.Args[0]
+				}
+			}
+		}
+		return nil
+	}
+	km := mapOfKey(key)
+	ma, mb := keyTypeOfMap(bo.X), keyTypeOfMap(bo.Y)
+	if km == nil || ma == nil || mb == nil {
+		return false
+	}
+	return (sharesSource(ma, km) && sharesSource(mb, recv)) || (sharesSource(mb, km) && sharesSource(ma, recv))
+}
+
+// mapOfKey: the reflect map value a key was taken from (by MapRange/MapKeys or Seq2).
+func mapOfKey(key ssa.Value) ssa.Value {
+	if p, ok := key.(*ssa.Parameter); ok {
+		return reflectSeqOf(p)
+	}
+	if call, ok := key.(*ssa.Call); ok {
+		switch core.CalleeKey(&call.Call) {
+		case "reflect.Value.MapKeys":
+			return call.Call.Args[0]
+		case "reflect.MapIter.Key":
+			for _, s := range traceSources(call.Call.Args[0]) {
+				if mr, ok := s.(*ssa.Call); ok && core.CalleeKey(&mr.Call) == "reflect.Value.MapRange" {
+					return mr.Call.Args[0]
+				}
+			}
+		}
+	}
+	return nil
 }
 
 func (c *Ctx) edgeGuardedByTypeEquality(pred *ssa.BasicBlock, key ssa.Value, recv ssa.Value) bool {
 	last := pred.Instrs[len(pred.Instrs)-1]
-	if ifi, ok := last.(*ssa.If); ok && c.isTypeEqualityTest(ifi.Cond, key, recv) {
-		return true
+	if ifi, ok := last.(*ssa.If); ok {
+		if cond, _ := normCond(ifi.Cond, true); c.isTypeEqualityTest(cond, key, recv) {
+			return true
+		}
 	}
 	for _, g := range guardsOf(last) {
 		if c.isTypeEqualityTest(g.Cond, key, recv) {
